@@ -520,6 +520,7 @@ func (s *segment) rewriteTarget(suffix string) (*segment, error) {
 		if err := os.Remove(file); err != nil && !os.IsNotExist(err) {
 			return nil, errors.Wrap(err, "failed to remove leftover segment file")
 		}
+		crashPoint("rewrite:leftover-removed")
 	}
 	return newSegment(s.path, s.BaseOffset, s.maxBytes, false, suffix)
 }
